@@ -68,6 +68,34 @@ def runScript (line : String) : String :=
     | none => "bad-op"
   | _ => "bad-op"
 
+/-- the receiver consumes everything it has (and the network settles after each message) -/
+def drain : Nat → State → State
+  | 0, s => s
+  | fuel+1, s =>
+    match s.rq with
+    | [] => s
+    | _ => drain fuel (settle 10000 ((step s .consume).getD s))
+
+/-- one sender streaming `m` messages of `n` bytes to a greedy receiver: after every Send the
+receiver drains its queue, until the Send is admitted (bounded by fuel; a model that could not
+admit it would deliver fewer bytes). Returns the final state. -/
+def streamOne (n : Nat) : Nat → State → State
+  | 0, s => s
+  | m+1, s =>
+    let s1 := (doOp s ("s" ++ toString n)).1
+    let s2 := drain 64 s1
+    let s3 := match s2.pc with | .idle => s2 | _ => drain 64 (settle 10000 s2)
+    match s3.pc with
+    | .idle => streamOne n m s3
+    | _ => s3
+
+/-- `stream <W> <size> <channels> <messages>` → the same line with `delivered=<bytes>`: every channel
+is an independent copy of the one-channel model -/
+def runStream (line : String) (W n c m : Nat) : String :=
+  let s := drain 64 (streamOne n m (init W))
+  let bytes := (s.admitted.foldl (· + ·) 0) * c
+  line ++ " delivered=" ++ toString bytes
+
 /-- `backoff <attempt>` → `backoff <attempt> <nanoseconds>` (C19) -/
 def answer (line : String) : String :=
   match line.splitOn " " with
@@ -75,6 +103,10 @@ def answer (line : String) : String :=
     (match a.toNat? with
      | some n => "backoff " ++ a ++ " " ++ toString (SpecVerif.Mpx.Client.reconnectTimeout n)
      | none => "bad-op")
+  | ["stream", w, n, c, m] =>
+    (match w.toNat?, n.toNat?, c.toNat?, m.toNat? with
+     | some W, some n', some c', some m' => runStream line W n' c' m'
+     | _, _, _, _ => "bad-op")
   | _ => runScript line
 
 partial def loop (h : IO.FS.Stream) (out : IO.FS.Stream) : IO Unit := do
